@@ -185,6 +185,51 @@ extern "C" void h_link_units()
     END();
 }
 
+// linkUnits over a hierarchy: two siblings and a nested component; which variables carry units that cannot be linked
+// (an object owned by another model) is symbolic.  The result has to account for every component, not only the last one visited.
+extern "C" void h_link_units_tree()
+{
+    auto m = Model::create("m");
+    auto other = Model::create("o");
+    auto c1 = Component::create("a");
+    auto c2 = Component::create("b");
+    auto c3 = Component::create("c");
+    auto v1 = Variable::create("p");
+    auto v2 = Variable::create("q");
+    auto v3 = Variable::create("r");
+    auto u = Units::create("a");
+    auto foreign = Units::create("f");
+    other->addUnits(foreign);
+    m->addUnits(u);
+    c1->addVariable(v1);
+    c2->addVariable(v2);
+    c3->addVariable(v3);
+    m->addComponent(c1);
+    m->addComponent(c2);
+    c2->addComponent(c3);
+#ifndef WHICH
+#    define WHICH 1
+#endif
+    // one symbolic choice per query (three symbolic units pointers at once: no verdict in 900 s)
+    bool f = vin(0, 1);
+    bool f1 = WHICH == 1 && f;
+    bool f2 = WHICH == 2 && f;
+    bool f3 = WHICH == 3 && f;
+    v1->setUnits(u);
+    v2->setUnits(u);
+    v3->setUnits(u);
+    if (f1) v1->setUnits(foreign);
+    if (f2) v2->setUnits(foreign);
+    if (f3) v3->setUnits(foreign);
+    bool ok = m->linkUnits();
+    bool unlinked = m->hasUnlinkedUnits();
+    vout("ok", ok); vout("unlinked", unlinked);
+    if (ok) vcheck(!unlinked, "after a successful linkUnits no units are unlinked");
+    vcheck(ok == !(f1 || f2 || f3), "linkUnits fails exactly when some variable in some component holds units that cannot be linked");
+    vcheck(m->unitsCount() == 1 && (f1 || v1->units() == u) && (f2 || v2->units() == u) && (f3 || v3->units() == u), "already linked variables and the model's units are untouched");
+    END();
+}
+
 extern "C" void h_clean()
 {
     auto m = Model::create("m");
